@@ -12,6 +12,7 @@ import (
 	"bytes"
 	"encoding/json"
 	"fmt"
+	"github.com/olive-io/bpmn/v2/pkg/event"
 	"os"
 	"os/exec"
 	"regexp"
@@ -163,6 +164,9 @@ func c18cases(tier string) []c18case {
 		{[]string{"thr1", "cat", "triv"}, []string{"wtask"}, []c18flow{{From: 0, To: 1, Kind: "catch"}}},
 		// the referenced catch event is not a top-level node of its member: it waits inside an embedded sub-process
 		{[]string{"thr1", "subcat"}, nil, []c18flow{{From: 0, To: 1, Kind: "catch"}}},
+		// … and its message definition carries an operationRef (the wake-up is the message AND the operation)
+		{[]string{"thr1", "catop"}, nil, []c18flow{{From: 0, To: 1, Kind: "catch"}}},
+		{[]string{"thr1", "catop", "triv"}, []string{"wtask"}, []c18flow{{From: 0, To: 1, Kind: "catch"}}},
 		{[]string{"thr1", "subcat", "task"}, []string{"wtask"}, []c18flow{{From: 0, To: 1, Kind: "catch"}}},
 		{[]string{"thr1", "thr1"}, []string{"wtask"}, []c18flow{{From: 0, To: 2, Kind: "start"}, {From: 1, To: 2, Kind: "start"}}},
 		{[]string{"thr1", "thr1"}, []string{"wtask", "wtriv"}, []c18flow{{From: 0, To: 2, Kind: "start"}, {From: 1, To: 3, Kind: "start"}}},
@@ -368,6 +372,10 @@ func c18graph(id, shape string, executable bool) *eng.Graph {
 			chain(us, ue)
 		}
 		chain(st, u, task("A"), en)
+	case "catop": // the catch event's message definition names an OPERATION besides the message
+		c := g.Add("intermediateCatchEvent", "c", "")
+		c.Defs = []eng.EventDef{{Kind: "message", Name: "msg_" + id + "_c", Op: "op_" + id}}
+		chain(st, c, task("A"), en)
 	case "subcat": // the catch event a message flow refers to sits INSIDE an embedded sub-process of the member
 		u := g.Add("subProcess", "U", "")
 		us := g.Add("startEvent", "us", u.ID)
@@ -574,7 +582,13 @@ func c18alone(c c18case, idx int, shape string, v int) []string {
 		for _, l := range ls {
 			w := strings.Fields(l)
 			if len(w) == 3 && w[0] == "obs" && w[1] == "listening" && !c18has(ls, "op deliver message msg_"+w[2]) {
-				in.Deliver("message", "msg_"+w[2], 2*timeSecond)
+				if shape == "catop" {
+					// the message AND the operation the definition names (what the set's wake-up carries)
+					op := "op_" + id
+					in.DeliverEvent(event.NewMessageEvent("msg_"+w[2], &op), "message", "msg_"+w[2], 2*timeSecond)
+				} else {
+					in.Deliver("message", "msg_"+w[2], 2*timeSecond)
+				}
 				delivered = true
 				break
 			}
